@@ -265,6 +265,11 @@ def _import_plugin_folder(probes):
             with open(os.path.join(folder, name), "w", encoding="utf-8") as stream:
                 stream.write(source)
     interface.import_plugins(folder)
+    # the cyclic garbage collector may run at any moment; the simulator lets it run right here, between the
+    # import of the folder and the first use of its classes (found the hard way: a flaky harness failure)
+    import gc
+
+    gc.collect()
     probes.append("plug-in-folder-imported")
 
 
